@@ -38,6 +38,11 @@ def _entry(w):
     return bs[0]
 
 
+def _entry_inl(w):
+    """the range entry with its own helpers expanded (see c05.entry_body)"""
+    return c05.entry_body(w, _entry(w))
+
+
 def _range_param(b):
     for i in range(1, b.arg_count + 1):
         if b.locals[i]['ty']['s'] == 'std::ops::Range<usize>':
@@ -165,7 +170,7 @@ def r2_refusal(w):
 
 def r3_consistency(w):
     r = RuleResult('C13.R3', 'returned range = range() of the node that is cast and converted; mode from the same cover search; text rendered from that document', floor=7)
-    b = _entry(w)
+    b = _entry_inl(w)
     v = BodyView(w, b)
     # the covering node: the LinkedNode local whose range() is returned
     ok_sites = []
@@ -236,7 +241,7 @@ def r3_consistency(w):
         cx = v.pv.peel(v.pv.origins_operand(t['args'][1]))
         cfine = bool(cx)
         for o in cx:
-            if _same_cover(v, o, node_locals):
+            if _same_cover(v, o, node_locals) or _from_cover_search(w, v, o):
                 continue          # the Context returned by the same cover search
             if not (o[0] == 'call' and (callee_path(v.pv.call_term(o)) or '').endswith('Context::with_mode')):
                 cfine = False
@@ -431,6 +436,10 @@ def cover_transitions(w):
     node_p = [i for i in range(1, b.arg_count + 1) if b.locals[i]['ty']['s'].startswith('typst_syntax::LinkedNode')][0]
     ctx_p = [i for i in range(1, b.arg_count + 1) if b.locals[i]['ty']['s'].endswith(('context::Mode', 'context::Context'))][0]
     full = b.locals[ctx_p]['ty']['s'].endswith('context::Context')
+    # the search over the children may be written as a `for` loop or as an iterator consumer with a closure (find_map, any, ..): evaluate the
+    # loop form of either (inline.py rewrites the consumer as the loop it stands for, the closure expanded in its body)
+    import inline
+    b_eval = inline.inline_body(w, b, lambda cb, t, d: False)
 
     def hook(ip, m, f, t, args):
         if resolved_id(t) == b.id:
@@ -449,7 +458,7 @@ def cover_transitions(w):
             for (s_in, a_in) in flags:
                 for prev in ('Hash', 'Space'):
                     val = sm.context(m_in, s_in, a_in) if full else _mode_val(m_in)
-                    res = sm.evaluate_sequence(w, b, node_p, K, [Node('child', prev), Node('child', 'FuncCall')], no_inline=lambda tb: False,
+                    res = sm.evaluate_sequence(w, b_eval, node_p, K, [Node('child', prev), Node('child', 'FuncCall')], no_inline=lambda tb: False,
                                                extra={ctx_p: val}, hooks={'rec': hook})
                     got = set()
                     for item in res or []:
@@ -462,10 +471,42 @@ def cover_transitions(w):
     return b, out, full
 
 
+def _from_cover_search(w, v, o, depth=0):
+    """the value is (a part of) what the cover search returned, possibly handed on through Option / Result combinators, `?`, or a wrapper of
+    typstyle-core that calls the cover search"""
+    o = strip_casts(o)
+    if o[0] != 'call' or depth > 8:
+        return False
+    ct = v.pv.call_term(o)
+    cp = resolved_path(ct) or callee_path(ct) or ''
+    cb = w.bodies.get(resolved_id(ct))
+    cover = _cover_fn(w)
+    if cb is not None and (cb.id == cover.id or (cb.crate is w.core and cover.id in w.reachable([cb.id]) and not cb.short.startswith('pretty::'))):
+        return True
+    if re.search(r'Try>?::branch$', callee_path(ct) or '') and ct['args'] and o[2][:2] == (('v', 0), ('f', 0)):
+        # `x?`: the Continue payload is the Ok / Some payload of x; x may be an aggregate built in an expanded helper
+        arg = ct['args'][0]
+        aty = v.b.locals[arg['p']['l']]['ty']['s'] if arg['o'] in ('copy', 'move') and not arg['p']['proj'] else ''
+        pos = ('v', 1) if aty.startswith('std::option::Option<') else ('v', 0)
+        cur = v.pv.peel(v.pv.origins_operand(arg))
+        for e in (pos, ('f', 0)) + tuple(o[2][2:]):
+            nxt = set()
+            for x in cur:
+                nxt |= v.pv._project(x, e, frozenset())
+            cur = v.pv.peel(nxt)
+        # residuals of an inner `?` have no positive payload: they do not reach this projection
+        cur = {x for x in cur if not (x[0] == 'call' and re.search(r'from_residual$', callee_path(v.pv.call_term(x)) or ''))}
+        return bool(cur) and all(_from_cover_search(w, v, x, depth + 1) for x in cur)
+    if c05.COMBINATORS.search(callee_path(ct) or '') and ct['args']:
+        srcs = v.pv.peel(v.pv.origins_operand(ct['args'][0]))
+        return bool(srcs) and all(_from_cover_search(w, v, x, depth + 1) for x in srcs)
+    return False
+
+
 def entry_context_shape(w):
     """how the range entry builds the Context it converts the covering node with: 'mode-only' = Context::default().with_mode(<mode of the cover
     search>) (break_suppressed and after_hash are constantly false), 'context' = the Context the cover search returned"""
-    b = _entry(w)
+    b = _entry_inl(w)
     v = BodyView(w, b)
     shapes = set()
     for bi, t in b.calls():
@@ -487,7 +528,7 @@ def entry_context_shape(w):
                                 shapes.add('mode-only')
                             else:
                                 shapes.add('unknown:with_mode on %s' % sorted(v.describe(x) for x in base))
-                        elif 'get_node_cover_range' in cp or cp.endswith('::filter'):
+                        elif _from_cover_search(w, v, o):
                             shapes.add('context')
                         else:
                             shapes.add('unknown:' + cp[-60:])
@@ -994,6 +1035,28 @@ def _printer_item_nests(w):
     return out
 
 
+def _kind_of_parent(v, sw):
+    """the switch at block sw tests the kind of the covering node's parent: discriminant of `parent.kind()` / of the payload of `node.parent_kind()`"""
+    view = re.compile(r'Deref>::deref$|Deref::deref$|LinkedNode::<.*>::get$')
+    for o in v.pv.origins_operand(v.b.blocks[sw]['term']['discr']):
+        o = strip_casts(o)
+        if o[0] != 'discr':
+            continue
+        l, pr = o[1]
+        for x in v.pv.peel(v.pv._origins(l, pr, frozenset())):
+            x = strip_casts(x)
+            if x[0] != 'call':
+                continue
+            p = callee_path(v.pv.call_term(x)) or ''
+            if p.endswith('::parent_kind'):
+                return True
+            if p == 'typst_syntax::SyntaxNode::kind' or p.endswith('LinkedNode::<\'a>::kind') or p.endswith('::kind'):
+                for y in v.pv.through(v.pv.origins_operand(v.pv.call_term(x)['args'][0]), view):
+                    if y[0] == 'call' and re.search(r'LinkedNode::<.*>::parent$', callee_path(v.pv.call_term(y)) or ''):
+                        return True
+    return False
+
+
 def r6_item_body_indent(w):
     r = RuleResult('C13.R6', 'the body of a list / enum / term item re-rendered by range formatting is nested as the printer nests it (one unit below the marker)', floor=4)
     from rules import c19
@@ -1005,7 +1068,7 @@ def r6_item_body_indent(w):
         else:
             r.ok(cons, 'the whole-document printer indents the body %d unit(s) below the item' % nests[K])
     need = {K for K, n in nests.items() if n}
-    b = _entry(w)
+    b = _entry_inl(w)
     v = BodyView(w, b)
     kinds = c19.syntax_kind_names(w)
     unit_nests = []
@@ -1016,8 +1079,12 @@ def r6_item_body_indent(w):
         if 'Config.tab_spaces' not in amount:
             continue
         covered = set()
-        for atom, vals, sw in v.guards(bi):
-            if vals != {True} or '::parent(' not in atom:
+        for atom, vals, sw in v.guards_ext(bi):
+            # (b) a match on the parent's kind itself: `match node.parent_kind() { Some(ListItem | ..) => .. }` / `match parent.kind() { .. }`
+            if vals and all(isinstance(x, str) for x in vals) and set(vals) <= set(kinds.values()) and isinstance(sw, int) and _kind_of_parent(v, sw):
+                covered |= set(vals)
+                continue
+            if vals != {True} or '::parent(' not in atom or not isinstance(sw, int):
                 continue
             # the closure handed to is_some_and: for which parent kinds does it answer true?
             for o in v.pv.peel(v.pv.origins_operand(b.blocks[sw]['term']['discr'])):
